@@ -67,6 +67,20 @@ package kmipserver
 //@   loop 0 invariant !stopped && errorContinuationOption == kmip.BatchErrorContinuationOptionStop ==> forall j int :: 0 <= j && j <= rangeindex ==> !failed(response.BatchItem[j])
 //@   loop 0 ghostmod ewmCalls, ewmCtx, biCalls, biSelf, biNext, biCtx, biItem, biRet, biErr, itemCalls, itemCtx, itemItem, itemRet, itemErr, handlerCalls
 
+// Registration: the chains are exactly the registered middlewares in registration order, and registering
+// touches nothing but the chain itself.
+//@ func (*BatchExecutor).Use
+//@   requires exec != nil
+//@   ensures len(exec.middlewares) == old(len(exec.middlewares))+len(m)
+//@   ensures forall k int :: 0 <= k && k < old(len(exec.middlewares)) ==> exec.middlewares[k] == old(exec.middlewares[k])
+//@   modifies exec.middlewares, elems(exec.middlewares)
+
+//@ func (*BatchExecutor).BatchItemUse
+//@   requires exec != nil
+//@   ensures len(exec.biMiddlewares) == old(len(exec.biMiddlewares))+len(m)
+//@   ensures forall k int :: 0 <= k && k < old(len(exec.biMiddlewares)) ==> exec.biMiddlewares[k] == old(exec.biMiddlewares[k])
+//@   modifies exec.biMiddlewares, elems(exec.biMiddlewares)
+
 // The continuation for stage i of the message chain (built by nextAt).
 //@ func (*BatchExecutor).nextAt$1
 //@   requires execOK(exec) && rm != nil && ctx != nil && 0 <= i && (i < len(exec.middlewares) ==> exec.middlewares[i] != nil)
@@ -217,6 +231,7 @@ package kmipserver
 //@   ensures len(exec.middlewares) == 0 ==> coreCalls == old(coreCalls)+1 && coreMsg == req && typeis(ctxvalue(coreCtx, ctxBatch), *batchData) && isnew(holder(coreCtx)) && corePlaceholderAtEntry == ""
 //@   ensures len(exec.middlewares) == 0 ==> ctxvalue(coreCtx, ctxConn) == ctxvalue(ctx, ctxConn)
 //@   ensures 0 < len(exec.middlewares) ==> mwCalls == old(mwCalls)+1 && mwMsg == req && mwSelf == exec.middlewares[0] && typeis(ctxvalue(mwCtx, ctxBatch), *batchData) && isnew(holder(mwCtx))
+//@   ensures 0 < len(exec.middlewares) ==> isclosure(mwNext, "(*BatchExecutor).nextAt$1") && capt(mwNext, "i") == 1 && capt(mwNext, "exec") == exec
 //@   ghostmod mwCalls, mwSelf, mwNext, mwCtx, mwMsg, mwRet, mwErr, coreCalls, coreCtx, coreMsg, coreRet, coreErr, biCalls, biSelf, biNext, biCtx, biItem, biRet, biErr, itemCalls, itemCtx, itemItem, itemRet, itemErr, handlerCalls, handlerCtx, corePlaceholderAtEntry, ewmCalls, ewmCtx
 
 // ---------------------------------------------------------------------------
